@@ -238,7 +238,7 @@ PROPS = {
         nontrivial=lambda p: any(k in json_dumps(p) for k in ("from_iter", "append", "add")),
     ),
     "C17": dict(
-        gens=[tlc("c01"), tlc("c17"), rand("stream_any", 400, "quick"), rand("wild", 600, "quick"), rand("decoder_junk", 300, "quick"),
+        gens=[tlc("c01"), tlc("c17"), rand("extremes", 1000, "both"), rand("stream_any", 400, "quick"), rand("wild", 600, "quick"), rand("decoder_junk", 300, "quick"),
               rand("parser_bytes", 300, "quick"),
               rand("stream_any", 20000, "thorough"), rand("wild", 40000, "thorough"), rand("decoder_junk", 20000, "thorough"),
               rand("parser_bytes", 20000, "thorough")],
